@@ -130,18 +130,37 @@ def theorems_in(mod):
     return out
 
 
+def expand(mod, depth=0):
+    """a module that only imports others (the per-theorem parts of a generated file, the per-method parts of a split proof
+    file) stands for those modules"""
+    p = module_path(mod)
+    if not os.path.exists(p):
+        return [mod]
+    src = open(p).read()
+    if re.search(r'^(?:@\[[^\]]*\]\s*)?(?:protected\s+|private\s+)?theorem\s', src, re.M) or depth > 2:
+        return [mod]
+    imps = [m for m in re.findall(r'^import\s+(OpyVerif\.\S+)', src, re.M) if not m.endswith('Defs')]
+    if not imps or not all(i.startswith(mod + '.') or i.startswith(mod) for i in imps):
+        return [mod]
+    out = []
+    for i in imps:
+        out += expand(i, depth + 1)
+    return out
+
+
 def obligations(prop):
     """-> (modules, [theorem names], missing modules)"""
     mods, thms, missing = [], [], []
-    for mod, ns, rx in TABLE[prop]:
-        ts = theorems_in(mod)
-        if ts is None:
-            missing.append(mod)
-            continue
-        sel = [n for n, _ in ts if rx is None or re.search(rx, n.split('.')[-1])]
-        if sel:
-            mods.append(mod)
-            thms += sel
+    for mod0, ns, rx in TABLE[prop]:
+        for mod in expand(mod0):
+            ts = theorems_in(mod)
+            if ts is None:
+                missing.append(mod)
+                continue
+            sel = [n for n, _ in ts if rx is None or re.search(rx, n.split('.')[-1])]
+            if sel:
+                mods.append(mod)
+                thms += sel
     return mods, thms, missing
 
 
@@ -154,9 +173,13 @@ def owner_props(file_rel, line=None):
         ts = theorems_in(mod) or []
         prev = [n for n, ln in ts if ln <= line]
         name = prev[-1] if prev else None
+    if name is None and mod.startswith('OpyVerif.Generated.') and mod.count('.') == 3:
+        # a per-theorem part: the theorem is named by the file
+        ts = theorems_in(mod) or []
+        name = ts[0][0] if ts else None
     for prop, rows in TABLE.items():
         for m, ns, rx in rows:
-            if m == mod or (mod.endswith('Defs') and m == mod[:-4]):
+            if m == mod or mod in expand(m) or (mod.endswith('Defs') and m == mod[:-4]):
                 if name is None or rx is None or re.search(rx, name.split('.')[-1]):
                     owners.append(prop)
     if 'Model' in mod or 'Lemmas' in mod or mod.endswith('Defs') or mod.endswith('.All') or mod == 'Driver':
